@@ -1,6 +1,6 @@
 (* C02 - Local delivery: exactly once, no lost wake-up, truthful send result. *)
 From Ergo Require Import Common.Base Sched.Model Sched.CountFacts Sched.QueueFacts Sched.TokenInv
-  Sched.TokenProofs Sched.IdInv Sched.MailboxProofs Sched.Delayed.
+  Sched.TokenProofs Sched.IdInv Sched.MailboxProofs Sched.Delayed Sched.MetaModel Sched.MetaProofs Sched.MetaIdProofs.
 From Coq Require Import Sorting.Permutation.
 
 Definition reach sched named lim fb selfs initok others := run sched (init_cfg named lim fb selfs initok others).
@@ -87,6 +87,37 @@ Theorem C02_delayed : forall sched stops,
   (d_count is_expire (d_thr c) = 0 -> n_true (d_results c) = 0 -> d_sends c = 1).
 Proof. exact delayed_send_exact. Qed.
 Print Assumptions C02_delayed.
+
+(* Meta-processes (node/meta.go): for any number of senders to the alias, the parent's termination,
+   any moment at which Start() ends and every schedule, each pushed message is in exactly one place:
+   still with its sender, in the system / main queue, or handled. *)
+Theorem C02_meta_accounting : forall fx sched n r others x,
+  let c := mrun fx sched (m_init_cfg n r others) in
+  mcount (pushing x) (mthr c) + qocc x (msys (msh c)) + qocc x (mmain (msh c)) + hocc x (mhandled (msh c))
+  = mcount (pushing x) others.
+Proof. exact meta_accounting. Qed.
+Print Assumptions C02_meta_accounting.
+
+(* ... so nothing is handled twice and nothing is handled that was not sent *)
+Theorem C02_meta_handled_at_most_once : forall fx sched n r others x,
+  mcount (pushing x) others <= 1 ->
+  hocc x (mhandled (msh (mrun fx sched (m_init_cfg n r others)))) <= 1.
+Proof. exact meta_handled_at_most_once. Qed.
+Print Assumptions C02_meta_handled_at_most_once.
+
+Theorem C02_meta_handled_was_pushed : forall fx sched n r others x,
+  1 <= hocc x (mhandled (msh (mrun fx sched (m_init_cfg n r others)))) ->
+  1 <= mcount (pushing x) others.
+Proof. exact meta_handled_was_pushed. Qed.
+Print Assumptions C02_meta_handled_was_pushed.
+
+(* ... and a message that is neither with its sender nor queued any more has been handled *)
+Theorem C02_meta_handled_when_gone : forall fx sched n r others x,
+  let c := mrun fx sched (m_init_cfg n r others) in
+  mcount (pushing x) (mthr c) = 0 -> qocc x (msys (msh c)) = 0 -> qocc x (mmain (msh c)) = 0 ->
+  hocc x (mhandled (msh c)) = mcount (pushing x) others.
+Proof. exact meta_handled_when_gone. Qed.
+Print Assumptions C02_meta_handled_when_gone.
 
 (* non-vacuity: two senders racing the runner's sleep transition; both handled, asleep, empty *)
 Example C02_example :
